@@ -162,6 +162,8 @@ def run_history(hist: List[str], tag: str, depth, ctx) -> None:
     base = torch.arange(1, 1 + shape[0] * (shape[1] if len(shape) > 1 else 1), dtype=torch.float32).reshape(shape) / 8 - 0.5
     p = uu.Parameter(base.clone(), tag, depth)
     want_lr = float(O.scaled_parameters([p], O.lr_scale_func_adam, lr=1.0)[0]["lr"])
+    # the same with the learning rate given as a 0-dim tensor (documented as Union[float, Tensor]): value AND dtype of the scaled lr
+    want_lr_t = O.scaled_parameters([p], O.lr_scale_func_adam, lr=torch.tensor(0.3))[0]["lr"]
     shadow = {"values": base.clone(), "dtype": torch.float32, "rg": True}
     prefix = "C09:history"
 
@@ -240,6 +242,11 @@ def run_history(hist: List[str], tag: str, depth, ctx) -> None:
             ctx.count("lr:accepted-by-optimizer")
             if lr != want_lr:
                 ctx.violation(f"{prefix}:lr-scale-changed:{kind_of(step)}", f"after {hist[:i+1]}: lr {lr!r} != {want_lr!r}", **det)
+                return
+            lr_t = O.scaled_parameters([p], O.lr_scale_func_adam, lr=torch.tensor(0.3))[0]["lr"]
+            ctx.count("lr:tensor-lr-compared")
+            if not isinstance(lr_t, torch.Tensor) or lr_t.dtype != want_lr_t.dtype or float(lr_t) != float(want_lr_t):
+                ctx.violation(f"{prefix}:tensor-lr-scale-changed:{kind_of(step)}", f"after {hist[:i+1]}: tensor lr {lr_t!r} != {want_lr_t!r} (the original's)", **det)
                 return
         except Exception as e:
             ctx.violation(f"{prefix}:optimizer-rejects:{ctxt}", f"after {hist[:i+1]}: {e!r}", **det)
